@@ -172,6 +172,9 @@ func BFS(sys *System) *BFSResult {
 				}
 			}
 		}
+		if res.NViolations >= 2000 && res.Capped == "" {
+			res.Capped = "stopped after 2000 violations"
+		}
 		if res.Capped != "" {
 			break
 		}
